@@ -4,7 +4,7 @@ import gramgen as G
 SUBCMD = "eng"
 IMPORTS = ["FileSet", "Grammar", "Engine", "Spec", "EngineHarness", "EngineOracles"]
 COQ_BASE = ["EngineHarness.vo", "EngineOracles.vo"]
-STALL = 8
+STALL = 3
 TRUSTED = ["Coq 8.16.1 kernel and vm_compute", "hand-written engine model coq/Engine.v tied to the code by this differential run "
            "(results, errors, call counts, activation and failed-attempt logs compared on every case)",
            "Go driver harness/eng.go (probes inside Memoize and around terminals, public API only)", "lib/core.py, lib/gramgen.py"]
